@@ -51,7 +51,7 @@ AXES = {
     "cap_style_val": VALS,
     "span_style": [None, "italics", "italics+color", "class-defined", "class-undefined", "color-only"],
     "span_val": VALS,
-    "set_style_id": [None] + VALS[1:7],
+    "set_style_id": [None] + VALS[1:7] + ["p", "default"],
     "set_style_val": VALS,
     "lang": ["en-US"] + VALS[1:7],
     "nlangs": [1, 2, 3],
@@ -345,6 +345,8 @@ def shards(tier, seed):
         for p in range(n):
             sh.append({"k": "api", "w": w, "part": p, "nparts": n, "maxdev": bounds(tier)["max_deviations"]})
     sh.append({"k": "readers"})
+    for w in WRITERS:
+        sh.append({"k": "reuse", "w": w})
     return sh
 
 
@@ -366,6 +368,37 @@ def run_shard(d):
                 acc.case((w, cfg, opt), True, (w, out), {"writer": w, "options": opt, "deviations_from_base": {k: cfg[k] for k in cfg if cfg[k] != AXES[k][0]}})
                 for sig, det in v:
                     acc.violation(sig, {"k": "api", "cfg": cfg, "w": w, "opt": opt}, det)
+    elif d["k"] == "reuse":
+        # one writer object writes a sequence of different sets: every output must still be consistent
+        w = d["w"]
+        singles = [c for c in deviations(1) if in_domain(c)]
+        for order in (singles, list(reversed(singles)), singles[::2] + singles[1::2]):
+            writer = writer_for(w, {})
+            for step, cfg in enumerate(order):
+                cs, langs = build(cfg)
+                try:
+                    doc = writer.write(cs)
+                except Exception:  # noqa
+                    continue
+                nps = [{3} for _ in langs]
+                if w != "DFXPWriter" and cfg["concurrent"]:
+                    nps = [{2} for _ in langs]
+                res = check_doc(doc, langs, nps, None)
+                prev = minimal_class(order[step - 1]) if step else "-"
+                acc.case(("reuse", w, step, cfg), True, (w, "ok" if not res else "bad"), {"writer_object_reused": w, "step": step, "set": minimal_class(cfg), "previous_set": prev})
+                if res:
+                    # find a single earlier set that, written first with a new writer object, reproduces the failure
+                    kinds = {k_ for k_, _ in res}
+                    hist = list(order[: step + 1])
+                    for x in order[:step]:
+                        r2 = replay({"k": "reuse", "w": w, "order": [x, cfg]})
+                        if {e["sig"].split("/")[2] for e in r2} == kinds:
+                            hist = [x, cfg]
+                            break
+                    prev = minimal_class(hist[-2]) if len(hist) == 2 else "longer-history"
+                    for kind, det in res:
+                        acc.violation(f"C07/{w}/{kind}/writer-object-reused/after:{prev}", {"k": "reuse", "w": w, "order": hist}, dict(det, doc=doc[:900]))
+                    writer = writer_for(w, {})
     else:
         import pycaption
 
@@ -400,7 +433,33 @@ def run_shard(d):
     return acc.result()
 
 
+def _fix_cfg(cfg):
+    cfg = dict(cfg)
+    for k in ("lang_layout", "cap_layout", "span_layout"):
+        if isinstance(cfg[k], list):
+            cfg[k] = tuple(tuple(x) if isinstance(x, list) else x for x in cfg[k])
+    return cfg
+
+
 def replay(case):
+    if case["k"] == "reuse":
+        w = case["w"]
+        writer = writer_for(w, {})
+        out = []
+        order = [_fix_cfg(c) for c in case["order"]]
+        for step, cfg in enumerate(order):
+            cs, langs = build(cfg)
+            try:
+                doc = writer.write(cs)
+            except Exception:  # noqa
+                continue
+            nps = [{3} for _ in langs]
+            if w != "DFXPWriter" and cfg["concurrent"]:
+                nps = [{2} for _ in langs]
+            if step == len(order) - 1:
+                prev = (minimal_class(order[step - 1]) if len(order) == 2 else "longer-history") if step else "-"
+                out = [{"sig": f"C07/{w}/{kind}/writer-object-reused/after:{prev}", "detail": det} for kind, det in check_doc(doc, langs, nps, None)]
+        return out
     if case["k"] == "api":
         cfg = dict(case["cfg"])
         for k in ("lang_layout", "cap_layout", "span_layout"):
